@@ -1290,6 +1290,12 @@ func (e *env08) runPair(idx int, sv sessVec, mode string) error {
 			if want == "" {
 				want = v.Expect.Reply
 			}
+			if o.Class == "error" && want == "json" && v.Class.Sub == "list" && len(o.Replies) == 1 && strings.HasPrefix(o.Replies[0], "ERROR: unknown work unit ") &&
+				(s.ids.U == "" || !strings.Contains(o.Replies[0], s.ids.U)) {
+				e.res.violate(listRaceSig, fmt.Sprintf("%q answered %q while the other session released a unit", o.Sent, o.Replies[0]), replay)
+
+				break
+			}
 			if o.Class != want {
 				e.res.violate(fmt.Sprintf("C08:pair-reply-%s-instead-of-%s-%s", o.Class, want, v.Kind),
 					fmt.Sprintf("session %v line %d %q (kind %s): spec says %s, daemon answered %v", s.kinds, j+1, o.Sent, v.Kind, want, o.Replies), replay)
@@ -1448,6 +1454,91 @@ func (e *env08) raceScan(which string, rng *rand.Rand) error {
 	return nil
 }
 
+const listRaceSig = "C08:work-list-error-while-another-session-releases-a-unit"
+
+// raceList: "work list" on some sessions while other sessions create and release units.  A well-formed work list must
+// be answered with the list whatever other sessions do (Isolation).
+func (e *env08) raceList(rng *rand.Rand) error {
+	var pre []string
+	for i := 0; i < 40; i++ {
+		id, _, err := e.d.Submit(map[string]string{"node": "ghost" + randID(rng, 4), "worktype": "echo"}, "", e.replyTO)
+		if err != nil {
+			return err
+		}
+		pre = append(pre, id)
+	}
+	var wg sync.WaitGroup
+	var mu sync.Mutex
+	stop := make(chan struct{})
+	lists, bad := 0, []string{}
+	for i := 0; i < 3; i++ {
+		wg.Add(1)
+		go func() {
+			defer wg.Done()
+			k, err := ctl.DialUnix(e.d.Sock, e.replyTO)
+			if err != nil {
+				return
+			}
+			defer k.Close()
+			for {
+				select {
+				case <-stop:
+					return
+				default:
+				}
+				if k.Send([]byte("work list\n")) != nil {
+					return
+				}
+				l, err := k.ReadLine(e.replyTO)
+				if err != nil {
+					return
+				}
+				mu.Lock()
+				lists++
+				if !strings.HasPrefix(l, "{") && len(bad) < 5 {
+					bad = append(bad, trunc(l, 120))
+				}
+				mu.Unlock()
+			}
+		}()
+	}
+	var cw sync.WaitGroup
+	for i := 0; i < 3; i++ {
+		cw.Add(1)
+		go func(i int) {
+			defer cw.Done()
+			for j := 0; j < 40; j++ {
+				id, _, err := e.d.Submit(map[string]string{"node": "ghostx", "worktype": "echo"}, "", e.replyTO)
+				if err != nil {
+					return
+				}
+				_, _ = e.d.Command("work release "+id, e.replyTO)
+			}
+		}(i)
+	}
+	cw.Wait()
+	close(stop)
+	wg.Wait()
+	for _, id := range pre {
+		_, _ = e.d.Command("work release "+id, e.replyTO)
+	}
+	e.res.mu.Lock()
+	e.res.Evaluations++
+	e.res.mu.Unlock()
+	e.markDistinct("race-list")
+	e.res.add("race_list_requests", lists)
+	if len(bad) > 0 {
+		e.res.violate(listRaceSig, fmt.Sprintf("work list was answered with an error on a session while other sessions released units (%d lists asked): %v", lists, bad), map[string]any{"mode": "racelist"})
+	}
+	if h, why := e.checkHealth(); h != healthy {
+		e.res.violate("C08:unhealthy-after-list-race", why, map[string]any{"mode": "racelist"})
+
+		return e.recover()
+	}
+
+	return nil
+}
+
 func init() { commands["c08"] = cmdC08 }
 
 func cmdC08(args []string) {
@@ -1577,6 +1668,11 @@ func cmdC08(args []string) {
 			return
 		}
 	}
+	if err := e.raceList(rng); err != nil {
+		res.inconclusive("environment failure in the list race: %v", err)
+
+		return
+	}
 	// phase 3: session pairs
 	start := time.Now()
 	n := 0
@@ -1677,6 +1773,10 @@ func (e *env08) replay(path string) {
 			if err := e.raceScan(rp.Replay.Which, rand.New(rand.NewSource(e.seed+int64(i)))); err != nil {
 				e.res.inconclusive("replay: %v", err)
 			}
+		}
+	case rp.Replay.Mode == "racelist":
+		if err := e.raceList(rand.New(rand.NewSource(e.seed))); err != nil {
+			e.res.inconclusive("replay: %v", err)
 		}
 	case rp.Replay.Mode == "idle":
 		e.idleHolders(64, rand.New(rand.NewSource(e.seed)))
